@@ -61,6 +61,22 @@ CHECKS = {
              text="Round trip over every opcode x operand value (1e6 instructions; Closure's second operand fully enumerated in the thorough tier), 2.5e3-8e4 generated programs with both monitors armed (1e6 emitted instructions and 1e6+ VM steps checked per quick run), ~50 limit programs (constants incl. REPL accumulation, locals, arguments, captured variables, literal sizes, jump distances, globals in the thorough tier); held on everything observed.",
              note="Trusted: probe monitors (same thread as the code observed), the guarded emit/patch/replace/truncate/scope-done and step hooks; operand widths of the layout monitor are transcribed from the VM, not from DEFINITIONS.",
              design="6/C14"),
+ "C15": dict(level="exploration", technique="identity oracle over written bytes: frames (structure-aware generator, every truncation) read through scripts performing model-generated read sequences, then written with pcap_write / write() / filter-mode output and compared byte for byte with the captured records",
+             text="250-6000 random frames over all layer stacks (every IHL, every TCP data offset, QinQ, IPv6-in-IPv4, unknown types, inconsistent lengths) plus their truncations (14 sampled / all prefixes) x 0-12 reads incl. inner layers by matching and contradicting names; 60-1200 filter-mode runs with $0..$10 through the real binary in both profiles; held on everything observed.",
+             note="Trusted: pkt.py (pcap reader/writer) and pktscript.py's model of the layer cache, which only serves to generate reads that cannot raise.",
+             design="6/C15"),
+ "C16": dict(level="exploration", technique="RFC field-table oracle: scripts read every property of generated frames; per-field value sweeps with random neighbouring bits; $n / layer dispatch end to end in filter mode over all EtherTypes, protocols and next headers",
+             text="Per field all values (<= 16 bits, thorough) or boundary patterns + 256 random values (quick) for every property of Ethernet, 802.1Q, IPv4, IPv6, TCP, UDP; all fields and payload offsets of 400-8000 random frames; pcap global- and record-header properties; dispatch for 65536 EtherTypes (sampled every 257th in quick), 256 protocols, 256 next headers, deep stacks and a byte-by-byte truncation ladder through the real binary; held on everything observed.",
+             note="Trusted: pkt.FIELDS (bit offsets transcribed from the RFCs), reference address parsers. TCP flags: 8, 9 or 12 low bits accepted.",
+             design="6/C16"),
+ "C17": dict(level="exploration", technique="bit-range oracle: assignment scripts on generated frames; read-back, all other properties, written bytes (must differ from the captured ones only inside the field's bit range) and re-read after re-opening are compared with the field table",
+             text="Every writable property x in-range values (all values for fields <= 12 bits in the thorough tier) x out-of-range / wrong-kind values x frames over 12 layer stacks, plus 150-4000 sequences of 2-6 assignments followed by write and re-read; held on everything observed.",
+             note="Trusted: pkt.FIELDS. An invalid value may be rejected or stored reduced to the width; 'packet unchanged after a rejected assignment' is not observable after the runtime error ended the script and is not judged.",
+             design="6/C17"),
+ "C18": dict(level="exploration", technique="reference-parser oracle (Python ipaddress, 6-line MAC parser): address texts assigned to eth/ipv4/ipv6 src/dst, read-back text re-assigned, stored bytes compared with the reference value; malformed texts must raise",
+             text="Random and boundary addresses; IPv6 over all 36 positions/lengths of '::' x upper/lower case x with/without leading zeros; ~45 malformed texts (group counts, ranges, two '::', ':::', stray separators, empty); held on everything observed.",
+             note="Non-standard but tolerated spellings (signs, leading zeros in dotted quads, one-digit MAC octets, mixed IPv4 notation) are not judged.",
+             design="6/C18"),
 }
 
 PENDING_REASON = "check not built yet in this session (design in DESIGN.md section 6); not claimed until its monitor runs silently on the unchanged tree"
